@@ -254,6 +254,40 @@ func rulesC03(e *Engine, r *Report) {
 	// ---------------------------------------------------------------- R03.10
 	r.Rule("R03.10", "no self-deadlock on the receiver's or the sender's shared state: a method holding a mutex of its receiver (stage, queue, cache, broker) never calls a method of the same receiver that acquires it again - shared with R20.8")
 	e.checkNoReentrantLocking(r, "R03.10", 20, "stage", "queue", "cache", "client")
+	// ---------------------------------------------------------------- R03.11
+	r.Rule("R03.11", "a file that is not due yet is looked at again without new input: the queue can hold files while Pop() answers nil (the youngest file of a group is withheld by its tag's last-delay), so the queue stage must never wait on its input channel alone - every select of startQueue has a timer arm whose channel is never nil")
+	if fn := needFn(e, r, "R03.11", "client.(*Broker).startQueue"); fn != nil {
+		n := 0
+		Instrs(fn, func(in ssa.Instruction) {
+			sel, ok := in.(*ssa.Select)
+			if !ok {
+				return
+			}
+			n++
+			timed := false
+			var facts []string
+			for _, st := range sel.States {
+				leaves := e.phiLeaves(st.Chan)
+				isTimer, canNil := false, false
+				for _, lv := range leaves {
+					c := e.Canon(lv)
+					facts = append(facts, c)
+					if strings.HasPrefix(c, "call(time.After)(") || strings.HasSuffix(c, ".C") {
+						isTimer = true
+					}
+					if c == "nil" {
+						canNil = true
+					}
+				}
+				if isTimer && !canNil {
+					timed = true
+				}
+			}
+			r.Check(timed || !sel.Blocking, "R03.11", "client.(*Broker).startQueue: the select always has a live timer arm", e.InstrPos(in),
+				"after Pop() answered nil the stage waits on its input channel only: a file withheld by last-delay (or otherwise not due yet) is not looked at again until another scan batch arrives - possibly never", 1, facts...)
+		})
+		r.Min("R03.11", "selects in startQueue", n, 1)
+	}
 }
 
 // checkFailedCompanionDiscarded: the record of ranges of an attempt that
